@@ -20,6 +20,7 @@ static Verdict run(const Case &c) {
     uint64_t now = 1000000 + (uint64_t)(c.c(0) % 1000);   // milliseconds; the starting fraction of a second varies per case
     vp_set_now_ms(now);
     void *T[2] = {br_st_create(), br_st_create()};
+    void *en = br_init_enumeration(), *mp = br_init_mapping();
     const int CAP = br_st_capacity();
     if (CAP != 16) v.fail(fmt("table capacity is %d, documented 16", CAP));
     std::map<Key, MEntry> M[2];
@@ -125,7 +126,12 @@ static Verdict run(const Case &c) {
                 break;
             }
             case 6: {
-                br_tick(nullptr, nullptr, t, nullptr, nullptr, nullptr, 0);
+                // the tick is handed the interface's other engines as the daemons do - in whatever state they are (a[0]: RepeatBand -1 none / 0 Quiescent /
+                // 1 Pausing / 2 Wait; a[1]: mapping -1 none / 0 / 1 / 2, its inactivity deadline not armed): the table's expiry does not depend on them
+                void *en_arg = nullptr, *mp_arg = nullptr;
+                if (op.arg(0) >= 1 && op.arg(0) <= 3) { br_aut_set_state(en, (int)op.arg(0) - 1); en_arg = en; }
+                if (op.arg(1) >= 1 && op.arg(1) <= 3) { br_aut_set_state(mp, (int)op.arg(1) - 1); mp_arg = mp; }
+                { uint64_t last_tx = 0; int user = 1; br_tick(mp_arg, en_arg, t, &user, &last_tx, [](void *) {}, en_arg ? 1 : 0); }
                 size_t before = model.size();
                 for (auto it = model.begin(); it != model.end() && v.ok;) {
                     uint64_t idle = now - it->second.last_ms;
@@ -146,6 +152,7 @@ static Verdict run(const Case &c) {
         }
     }
     br_st_destroy(T[0]); br_st_destroy(T[1]);
+    br_automata_destroy(en); br_automata_destroy(mp);
     v.nontrivial = full_adds > 0 || partial_expiries > 0;
     if (full_adds) v.cls("add-to-full-table");
     if (partial_expiries) v.cls("partial-expiry");
@@ -178,7 +185,7 @@ int main(int argc, char **argv) {
             else if (k == 13) { o.kind = *gx::chance(30) ? 4 : 2; o.a = {key, 0, tb}; }
             else if (k == 14) { o.kind = *gx::chance(35) ? 8 : 5; o.a = {key, *gx::pick({0, 1, 1, 1}), tb}; }
             else if (k <= 15) { o.kind = 5; o.a = {key, *gx::pick({0, 1, 1}), tb}; }
-            else if (k <= 17) { o.kind = 6; o.a = {0, 0, tb}; }
+            else if (k <= 17) { o.kind = 6; o.a = {*gx::pick({0, 0, 1, 1, 2, 3}), *gx::pick({0, 0, 1, 2, 3}), tb}; }
             else { o.kind = 7; o.a = {*gx::bnd({0, 1, 999, 1000, 59000, 59999, 60000, 60001, 60999, 61000, 61001, 120000}, 0, 200000, 3, 1)}; }
             return o;
         })));
